@@ -64,6 +64,20 @@ impl Agent for Probe2 {
     }
 }
 
+/// Generic wrapper agents: field types of the form `Wrap<Probe>` / `crate::c20::MWrap<MProbe2>`
+pub struct Wrap<A>(pub A);
+impl<A: Agent> Agent for Wrap<A> {
+    fn update<R: RngCore>(&mut self, env: &mut Env, rng: &mut R) {
+        self.0.update(env, rng)
+    }
+}
+pub struct MWrap<A>(pub A);
+impl<A: MarketAgent> MarketAgent for MWrap<A> {
+    fn update<R: RngCore, const M: usize, const N: usize>(&mut self, env: &mut MarketEnv<M, N>, rng: &mut R) {
+        self.0.update(env, rng)
+    }
+}
+
 pub struct MProbe {
     tag: u32,
 }
